@@ -115,10 +115,35 @@ def powV (v : Val) (n : Nat) : Except Err Val :=
   | .float b => pure (Val.flt (Float.pow (Float.ofBits b) (Float.ofNat n)))
   | _ => .error "TypeError"
 
-/-- rxsci/math/formal/__init__.py `_moment`: `sum(m) / len(x)` (built-in sum: left fold from int 0) -/
+/-- CPython 3.12 built-in `sum(xs)` (start = int 0): exact integer phase while the items are ints;
+from the first float on, Neumaier compensated summation of the floats (`ints` are added plainly);
+the compensation is added at the end when it is non-zero and finite. -/
+def pySumF (xs : List Val) (f c : Float) : Except Err Val :=
+  match xs with
+  | [] => pure (Val.flt (if c != 0.0 && c.isFinite then f + c else f))
+  | .float b :: r =>
+    let x := Float.ofBits b
+    let t := f + x
+    let c' := if f.abs >= x.abs then c + ((f - t) + x) else c + ((x - t) + f)
+    pySumF r t c'
+  | .int i :: r => pySumF r (f + Float.ofInt i) c
+  | .bool b :: r => pySumF r (f + (if b then 1.0 else 0.0)) c
+  | _ => .error "TypeError"
+
+def pySumI (xs : List Val) (acc : Int) : Except Err Val :=
+  match xs with
+  | [] => pure (.int acc)
+  | .int i :: r => pySumI r (acc + i)
+  | .bool b :: r => pySumI r (acc + (if b then 1 else 0))
+  | .float b :: r => pySumF (.float b :: r) (Float.ofInt acc) 0.0
+  | _ => .error "TypeError"
+
+def pySum (xs : List Val) : Except Err Val := pySumI xs 0
+
+/-- rxsci/math/formal/__init__.py `_moment`: `sum(m) / len(x)` -/
 def moment (xs : List Val) (c : Val) (n : Nat) : Except Err Val := do
   let ms ← xs.mapM (fun x => do let d ← Val.sub x c; powV d n)
-  let s ← ms.foldlM (fun a b => Val.add a b) (.int 0)
+  let s ← pySum ms
   Val.div s (.int xs.length)
 
 /-- rxsci/math/formal/variance.py (repaired: the state list is no longer cleared by the map) -/
